@@ -4,7 +4,7 @@
 # checker for <prop> against the copy (static: nothing is executed), prints the
 # verdict and removes the copy. Exit status = checker's exit status.
 set -u
-PROP="$1"; PATCH="$2"; TIER="${3:-quick}"
+PROP="$1"; PATCH="$(realpath "$2")"; TIER="${3:-quick}"
 HERE="$(cd "$(dirname "$0")/.." && pwd)"
 SCR="$(mktemp -d /tmp/verifmut.XXXXXX)"
 trap 'rm -rf "$SCR"' EXIT
